@@ -105,6 +105,7 @@ type obsT struct {
 	echo      []uint32
 	closeAt   int // -1 = not closed
 	horizon   int // >0: the window the run actually observed (flood cases)
+	overrun   int // ms between the planned end of the window and the moment the observation was taken
 	reqOK     bool
 	disc      bool
 	reconnect bool
@@ -453,6 +454,9 @@ func runTiming(c *caseIn, r *rng.R) (o obsT) {
 	defer mu.Unlock()
 	res := o
 	res.reqOK = reqOK
+	if c.FloodN == 0 && closedAt.IsZero() {
+		res.overrun = ms(obsEnd.Sub(end))
+	}
 	if c.FloodN > 0 {
 		res.horizon = ms(obsEnd.Sub(t0))
 	}
@@ -527,6 +531,12 @@ func miss(c *caseIn, o *obsT) string {
 	}
 	if !o.reqOK {
 		return "ok:request-after-flood"
+	}
+	if o.overrun > 80 {
+		return "harness-stalled" // the whole process stood still: the observation is not a consistent snapshot
+	}
+	if o.closeAt < 0 && (o.disc || o.reconnect) {
+		return "ok:disconnect-without-close"
 	}
 	// the script as the broker realised it (the same resolution as ka_corr in Model/KeepAlive.v)
 	rc := *c
@@ -678,11 +688,52 @@ func term(c *caseIn, o *obsT) string {
 var intervals = []int{40, 80, 150}
 var timeouts = []int{20, 60}
 
+// configurations with timeout > interval: a pong that is in time may come after the next tick(s),
+// the one-slot ticker channel then makes the next ping leave at once
+var slowPairs = [][2]int{{40, 120}, {40, 200}, {80, 200}, {50, 150}}
+
+// the pairs the random generators draw from: mostly the product grid, sometimes timeout > interval
+func pickPair(r *rng.R) (int, int) {
+	if r.Chance(1, 5) {
+		p := slowPairs[r.Intn(2)*3] // (40,120) or (50,150): the cheap ones
+		return p[0], p[1]
+	}
+	return intervals[r.Intn(3)], timeouts[r.Intn(2)]
+}
+
+// alive-slow: every pong of 4-6 consecutive pings (or of all) comes after d = 0.6/0.75/0.9 x timeout,
+// which is longer than the interval: the broker answers within the timeout, the client must stay
+func genAliveSlow(slack, early int, r *rng.R, add func(*caseIn, string)) {
+	for _, p := range slowPairs {
+		for _, f := range []int{60, 75, 90} {
+			d := p[1] * f / 100
+			c := &caseIn{Kind: "timing", IntervalMs: p[0], TimeoutMs: p[1], SlackMs: slack, EarlyMs: early, Rest: d, BPings: 1,
+				HorizonMs: 5*d + d/2}
+			add(c, "alive-slow")
+		}
+	}
+	for i := 0; i < 8; i++ {
+		p := slowPairs[r.Intn(len(slowPairs))]
+		c := &caseIn{Kind: "timing", IntervalMs: p[0], TimeoutMs: p[1], SlackMs: slack, EarlyMs: early, BPings: r.Intn(2), Traffic: r.Bool()}
+		n := 4 + r.Intn(3)
+		t := 0
+		for j := 0; j < n; j++ {
+			d := p[1] * []int{60, 75, 90}[r.Intn(3)] / 100
+			c.Delays = append(c.Delays, d)
+			t += d
+		}
+		c.Rest = 0
+		c.HorizonMs = t + 2*p[0] + p[0]/2
+		add(c, "alive-slow")
+	}
+}
+
 func frac(to int, f int) int { return to * f / 10 } // f in tenths
 
 // the broker answers k pings (delays at 0, 0.5x, 0.9x timeout) and then stops or answers late (1.5x)
 func genDead(r *rng.R, slack, early int) *caseIn {
-	c := &caseIn{Kind: "timing", IntervalMs: intervals[r.Intn(3)], TimeoutMs: timeouts[r.Intn(2)], SlackMs: slack, EarlyMs: early}
+	pI, pTO := pickPair(r)
+	c := &caseIn{Kind: "timing", IntervalMs: pI, TimeoutMs: pTO, SlackMs: slack, EarlyMs: early}
 	k := r.Intn(6)
 	for i := 0; i < k; i++ {
 		c.Delays = append(c.Delays, frac(c.TimeoutMs, []int{0, 5, 5, 9}[r.Intn(4)]))
@@ -705,7 +756,8 @@ func genDead(r *rng.R, slack, early int) *caseIn {
 
 // the broker keeps answering in time: the client must stay
 func genAlive(r *rng.R, slack, early int) *caseIn {
-	c := &caseIn{Kind: "timing", IntervalMs: intervals[r.Intn(3)], TimeoutMs: timeouts[r.Intn(2)], SlackMs: slack, EarlyMs: early}
+	pI, pTO := pickPair(r)
+	c := &caseIn{Kind: "timing", IntervalMs: pI, TimeoutMs: pTO, SlackMs: slack, EarlyMs: early}
 	n := r.Intn(4)
 	for i := 0; i < n; i++ {
 		c.Delays = append(c.Delays, frac(c.TimeoutMs, []int{0, 5, 9}[r.Intn(3)]))
@@ -722,7 +774,8 @@ func genAlive(r *rng.R, slack, early int) *caseIn {
 // pong is under way (it never arrives: closed at the ping's deadline)
 func genLoud(r *rng.R, slack, early int) *caseIn {
 	for {
-		c := &caseIn{Kind: "timing", IntervalMs: intervals[r.Intn(3)], TimeoutMs: timeouts[r.Intn(2)], SlackMs: slack, EarlyMs: early}
+		pI, pTO := pickPair(r)
+		c := &caseIn{Kind: "timing", IntervalMs: pI, TimeoutMs: pTO, SlackMs: slack, EarlyMs: early}
 		n := 1 + r.Intn(4)
 		for i := 0; i < n; i++ {
 			c.Delays = append(c.Delays, frac(c.TimeoutMs, []int{0, 5, 9}[r.Intn(3)]))
@@ -844,8 +897,15 @@ func main() {
 			ndead, nalive, nloud, nann = 2400, 1100, 600, 400
 		}
 		// every (interval, timeout, k, last-delay class) once, then random ones
+		gridPairs := [][2]int{{40, 120}, {50, 150}} // timeout > interval too
 		for _, I := range intervals {
 			for _, TO := range timeouts {
+				gridPairs = append(gridPairs, [2]int{I, TO})
+			}
+		}
+		for _, gp := range gridPairs {
+			I, TO := gp[0], gp[1]
+			{
 				for k := 0; k <= 3; k++ {
 					for _, f := range []int{5, 9} {
 						for _, last := range []int{-1, 15} {
@@ -870,6 +930,7 @@ func main() {
 			add(genDead(r.Fork(), *slack, *early), "dead")
 		}
 		genFloods(*slack, *early, add)
+		genAliveSlow(*slack, *early, r.Fork(), add)
 		for i := 0; i < nloud; i++ {
 			add(genLoud(r.Fork(), *slack, *early), "loud")
 		}
@@ -960,7 +1021,7 @@ func main() {
 			"announced": []uint64{o.annI, o.annT}, "attempts": o.attempts, "request_after_flood_ok": o.reqOK, "observed_window_ms": o.horizon}
 		w.Add(coqfmt.Case{Term: term(j.c, o), Input: j.c, Observed: obs, Seed: j.seed, Nontrivial: nt, Kind: j.kind, Direct: o.direct})
 	}
-	rule := "timing: interval {40,80,150} ms x timeout {20,60} ms; the broker answers k=0..5 pings after 0/0.5x/0.9x timeout and then stops or answers after 1.5x timeout (dead), or keeps answering in time (alive), or answers in time while the link dies loudly between two pings or while a pong is under way (loud); inbound flood: the broker sends 1030/1100/2100 (chunks and metadata also 3300) request calls / reply calls / downstream chunks / downstream metadata / upstream chunk acks that the application never consumes (or consumes slowly) while answering every ping at once - the connection must stay for 3 intervals + timeout after the flood and an ordinary request must then succeed; half with concurrent chunk traffic and an open request, 0-2 broker pings per client ping; grid of every (interval, timeout, k<=3, delay, stop/late) plus random. announce: fixed table (1500 ms, 999 ms, 1 s, 2 h, 0 = default, 2^32 s wrap, 2^24 s - 1 ns) plus random durations. non-trivial = at least two pings reached the broker (timing) / a duration that is not a whole number of seconds (announce); distinct = distinct Coq case terms"
+	rule := "timing: interval {40,80,150} ms x timeout {20,60} ms plus timeout > interval pairs (40,120) (50,150) (and (40,200) (80,200) in alive-slow: every pong of 4-6 or of all pings after 0.6/0.75/0.9 x timeout, longer than the interval, so that pings leave back to back on buffered ticks - the client must stay); the broker answers k=0..5 pings after 0/0.5x/0.9x timeout and then stops or answers after 1.5x timeout (dead), or keeps answering in time (alive), or answers in time while the link dies loudly between two pings or while a pong is under way (loud); inbound flood: the broker sends 1030/1100/2100 (chunks and metadata also 3300) request calls / reply calls / downstream chunks / downstream metadata / upstream chunk acks that the application never consumes (or consumes slowly) while answering every ping at once - the connection must stay for 3 intervals + timeout after the flood and an ordinary request must then succeed; half with concurrent chunk traffic and an open request, 0-2 broker pings per client ping; grid of every (interval, timeout, k<=3, delay, stop/late) plus random. announce: fixed table (1500 ms, 999 ms, 1 s, 2 h, 0 = default, 2^32 s wrap, 2^24 s - 1 ns) plus random durations. non-trivial = at least two pings reached the broker (timing) / a duration that is not a whole number of seconds (announce); distinct = distinct Coq case terms"
 	extra := map[string]interface{}{"missed_first_run": missed, "retried": retried, "recovered_on_retry": recovered, "slack_ms": *slack, "early_ms": *early, "guard_ms": *guard, "parallel": *par}
 	if err := w.Flush(*seed, *tier, rule, false, extra); err != nil {
 		fmt.Fprintln(os.Stderr, err)
